@@ -38,8 +38,8 @@ TEXT = {
          "Element type of permutations monomorphised to u32 (R4). assume_specification for slice swap/reverse/sort, count_zeros. The from_fn/chain wrappers iter_submasks/iter_supermasks, ones(), and the neighbour iterators are outside Verus' subset: Kani harnesses (u8/i8 masks exhaustive; neighbours with symbolic n,m,i,j)."),
  "C18": ("proof", "Derived relations only: gt, le, ge, partial_cmp, abs, the assigning ops, Default and the ZeroOne constants are verified over TRUSTED contracts of the x87 asm primitives (lt, neg, min, max, conversions) and an exact decoding of the 10-byte pattern; consistency of the derived == with partial_cmp is an explicit obligation.",
          "Correct rounding of + - * / and of the conversions is ASSUMED (inline asm, R10), not decided. Four obligations fail on the pinned tree and are recorded as known findings (NaN <= x, NaN >= x, NaN == NaN, +0 != -0)."),
- "C19": ("proof", "get_index is verified with NO precondition on the index (reject mode: a panic = does not return): returns => every idx[k] < dims[k] and the result is the row-major offset < len; injectivity lemma (distinct valid indices address distinct elements); Index/IndexMut/iter/dims. Equality (shape AND elements) and constructor rejection are decided by Kani harnesses on the real crate.",
-         "Constructors / eq / write are outside Verus' subset (iter().product(), Vec == Vec): Kani harnesses are BOUNDED (rank 2, extents <= 3). wf (product of extents == len, mathematically) is a precondition of get_index. Write/read round trip only through the replay crate. One genuine defect repaired (fix: 028a49f)."),
+ "C19": ("proof", "get_index is verified with NO precondition on the index (reject mode: a panic = does not return): returns => every idx[k] < dims[k] and the result is the row-major offset < len; injectivity lemma (distinct valid indices address distinct elements); Index/IndexMut/iter/dims. PartialEq::eq is verified for every rank and element type to return true only for equal shapes; the element part of equality and constructor rejection are decided by Kani harnesses on the real crate.",
+         "Constructors / the element part of eq / write are outside Verus' subset (iter().product(), Vec == Vec): Kani harnesses are BOUNDED (rank 2, extents <= 3). wf (product of extents == len, mathematically) is a precondition of get_index. Write/read round trip, constructors and equality across shapes are additionally checked by BOUNDED enumeration of the property's own quantifier on the real crate (ranks 1..4, extents <= 5; rank 4 <= 4 in the quick tier). One genuine defect repaired (fix: 028a49f)."),
 }
 
 NA = [
